@@ -121,6 +121,37 @@ def desugar_ref_patterns(item, drops):
     """`let (&x, y) = E;`  ==>  `let (x__ref, y) = E; let x = *x__ref;`
     Verus does not support reference patterns; this is the only rewrite applied inside a body
     and it is reported in the evidence. Semantics-preserving for Copy referents."""
+    # match-arm form:  `Some((&x, y)) => EXPR,`  ==>  `Some((x__ref, y)) => { let x = *x__ref; EXPR },`
+    while True:
+        m = re.search(r'Some\(\(&(\w+), (\w+)\)\) =>\s*', item)
+        if not m:
+            break
+        x = m.group(1)
+        i = m.end()
+        if item[i] == '{':
+            j = _match_fwd(item, i)
+            body = item[i + 1:j]
+            end = j + 1
+        else:
+            d = 0
+            j = i
+            while j < len(item):
+                c = item[j]
+                if c in '([{':
+                    d += 1
+                elif c in ')]}':
+                    if d == 0:
+                        break
+                    d -= 1
+                elif c == ',' and d == 0:
+                    break
+                j += 1
+            body = item[i:j]
+            end = j
+        item = (item[:m.start()] + 'Some((%s__ref, %s)) => { let %s = *%s__ref; %s }' % (x, m.group(2), x, x, body.strip())
+                + item[end:])
+        k = 'desugared reference pattern in a match arm `Some((&x, y)) => e` into `Some((x__ref, y)) => { let x = *x__ref; e }`'
+        drops[k] = drops.get(k, 0) + 1
     while True:
         m = re.search(r'let \(&(\w+), (\w+)\) = ', item)
         if not m:
